@@ -18,7 +18,7 @@ for d in sorted(glob.glob(os.path.join(ROOT, "seeded", "*"))):
 hdr = """### 9.5 Seeded changes and which checks catch them
 
 %d changes to txtpp were written by sub-agents that saw only the text of one property and a scratch worktree
-(six rounds; the second asked for less obvious sites, the third and fourth (`"round"` in meta.json) for three mutually
+(seven rounds; the second asked for less obvious sites, the third and fourth (`"round"` in meta.json) for three mutually
 different mechanisms per property with narrow failing inputs, schedule-dependent ones included; the fifth and sixth were
 confined to the ENTRY LAYER - src/main.rs, lib.rs, config.rs, progress.rs, error.rs, shell.rs: how an invocation becomes a
 run and how its result is reported). Each was confirmed in a scratch worktree (`tools/confirm_seeds.sh`,
@@ -44,7 +44,13 @@ binary (inputs named one by one, inputs spelled through a named directory, a dir
 inputs), C17 gives the shell by a relative path, and the C18 fuzz runs the binary with the progress display on (long
 non-ASCII names, a directory whose name is not UTF-8, blank / padded / unknown `-s` values). Ten of the 24 were missed
 before these additions, none after. The flag mapping and the shell argument vector are also in the Lean model now
-(Model/Cli.lean, Model/Shell.lean) and compared with the code by the same jobs.
+(Model/Cli.lean, Model/Shell.lean) and compared with the code by the same jobs. Round 7 (core again, "changes a reviewer
+would wave through", 24 changes): five missed at first - C06-10 verify leaves an existing temp file alone (needs a source that
+reads its temp file back + an edit of the temp body: added as a scenario), C07-10 a temp target that is a directory aborts
+clean (added), C10-9 a top-level `-N` in front of `clean` (C10 had no CLI job: cli10 added), C10-10 `after` of a missing file
+creates it (the generator never wrote `after` of a file without source: added), C12-8 the skip-if-unchanged tests ignore line
+terminators (needs a rebuild after the source's ending changed: the C12 job now flips the first line's ending and rebuilds,
+plain or only-if-needed) - all caught now.
 
 | id | property | what the change does | caught by (quick tier) |
 |----|----------|----------------------|------------------------|
